@@ -173,6 +173,7 @@ def crash_ob(name, level, msg, g, scratch):
                 f.write('  "%s\\n"\n' % line.replace("\\", "\\\\").replace('"', '\\"'))
             f.write(";\n")
     return Ob("%s.generator.O%d" % (name, level), "C01/gencrash.c", defs=["C01_LEVEL=%d" % level, 'C01_TEXT_H="%s"' % text_h], unwind=2, timeout=120,
+              native_cc=[os.path.join(REPO, "mir.c"), os.path.join(REPO, "mir-gen.c")],
               sample="real generator at -O%d on %s: %s" % (level, g["source"], msg[:200]))
 
 
